@@ -162,7 +162,23 @@ def p_lookup_path(I, args, kwargs, node):
     if not I.ctx.choose():
         I.ghost["lookup_failed"] = True
         raise RaiseSig("HashError", info=["_lookup_path"])
-    f = fresh_value(I.ctx, PATH, "file")
+    # Storage naming invariant (established by outsource / save, see their contracts): a stored file is named
+    #     <hash> ["-new"] <suffix>      hash: no "." and no "-";  suffix: "." followed by characters other than "." and "-"
+    # X8 (pathlib, PurePath.suffix): the suffix is the part from the last dot, unless that dot is the first or the *last* character of the
+    # name - for a name ending in a lone dot `Path.suffix` is "" and `Path.stem` is the whole name.
+    h = z3.String(I.ctx.fresh_name("file_hash"))
+    sfx = z3.String(I.ctx.fresh_name("file_suffix"))
+    is_new = z3.Bool(I.ctx.fresh_name("file_is_new"))
+    dot, dash = z3.StringVal("."), z3.StringVal("-")
+    I.ctx.assume(z3.And(z3.Length(h) >= 1, z3.Not(z3.Contains(h, dot)), z3.Not(z3.Contains(h, dash)),
+                        z3.PrefixOf(dot, sfx), z3.Not(z3.Contains(z3.SubString(sfx, 1, z3.Length(sfx)), dot)), z3.Not(z3.Contains(sfx, dash))))
+    base = z3.Concat(h, z3.If(is_new, z3.StringVal("-new"), z3.StringVal("")))
+    name = z3.Concat(base, sfx)
+    real_suffix = z3.Length(sfx) >= 2
+    f = unpack(I.ctx, sort_of(PATH).constructor(0)(z3.If(real_suffix, base, name), z3.If(real_suffix, sfx, z3.StringVal(""))), PATH)
+    I.ghost["file_is_new"] = SV(is_new, BOOL)
+    I.ghost["file_hash"] = SV(h, STR)
+    I.ghost["file_sfx"] = SV(sfx, STR)
 
     def with_name(I2, n):
         I2.ghost["new_name"] = n
@@ -184,13 +200,14 @@ def p_lookup_path(I, args, kwargs, node):
     def read_bytes(I2):
         return SV(z3.Function("bytes_of_file", sort_of(PATH), sort_of(Abs("Val")))(pack(I2.ctx, f, PATH)), Abs("Val"))
 
-    o = Obj("PathObj", {"stem": f.fields["stem"], "suffix": f.fields["suffix"], "with_name": with_name, "rename": rename, "unlink": unlink, "read_bytes": read_bytes,
+    o = Obj("PathObj", {"name": SV(name, STR), "stem": f.fields["stem"], "suffix": f.fields["suffix"], "with_name": with_name, "rename": rename, "unlink": unlink, "read_bytes": read_bytes,
                         "rec": f})
     I.ghost["file"] = o
     return o
 
 
-PG = {"looked_up": "=None", "lookup_failed": "=False", "n_rename": "=0", "renamed_to": "=None", "new_name": "=None", "file": "=None", "n_unlink": "=0"}
+PG = {"looked_up": "=None", "lookup_failed": "=False", "n_rename": "=0", "renamed_to": "=None", "new_name": "=None", "file": "=None", "n_unlink": "=0",
+      "file_is_new": "=False", "file_hash": "=None", "file_sfx": "=None"}
 
 contract(
     EX + ".DiscStorage.persist",
@@ -206,8 +223,10 @@ contract(
         "lookup-admits-the-new-infix [C13,C15]": "'*' in looked_up",
         # C13: a persisted file is the -new file under the same hash and suffix, nothing else is renamed
         "nothing-renamed-when-missing-or-ambiguous [C13,C15]": "when(lookup_failed, n_rename == 0)",
-        "renames-only-new-files [C13,C15]": "when(not lookup_failed, (n_rename == 1) == file.stem.endswith('-new')) and n_rename <= 1",
-        "persisted-name-keeps-hash-and-suffix [C13]": "when(n_rename == 1, renamed_to == file.stem[:len(file.stem) - 4] + file.suffix)",
+        # stated over the *names* of the storage (<hash>-new<suffix> -> <hash><suffix>), not over pathlib's stem / suffix split: a suffix may be
+        # a lone "." (accepted by outsource() and external()), for which Path.suffix is "" (F32)
+        "renames-only-new-files [C13,C15]": "when(not lookup_failed, (n_rename == 1) == file_is_new) and n_rename <= 1",
+        "persisted-name-keeps-hash-and-suffix [C13]": "when(n_rename == 1, renamed_to == file_hash + file_sfx)",
         # C15: "Externals are persisted before the reference to them is written": a rename that fails must stop the session before
         # fix_all() writes the reference - persist() may not return normally then
         "a-failed-rename-is-not-swallowed [C15,C13]": "not rename_failed",
